@@ -202,6 +202,22 @@ func run[E any, P fields.Ptr[E]](c *mon.Ctx, f *fields.Field[E, P]) {
 			rec(c, id("ScalarMul"), func() []byte { s := sc; f.VecScalarMul(res, a, &s); return rawBytes(res) })
 			rec(c, id("Sum"), func() []byte { s := f.VecSum(a); return one(&s) })
 			rec(c, id("InnerProduct"), func() []byte { s := f.VecInnerProduct(a, b); return one(&s) })
+			// length contract: operands of different lengths are refused (panic) by every implementation alike; a
+			// build that silently truncates instead is a dependence on the code path
+			if off == 0 && n >= 1 && (n <= 40 || n%16 <= 1) {
+				longer := fenced(&regs, srcB[:n+1], atEnd)
+				shorter := fenced(&regs, srcB[:n-1], atEnd)
+				for li, o := range [][]E{longer, shorter} {
+					o := o
+					idm := func(op string) string { return fmt.Sprintf("%s/Vector.%s/length-mismatch%d/n%d", N, op, li, n) }
+					rec(c, idm("Add"), func() []byte { f.VecAdd(res, a, o); return rawBytes(res) })
+					rec(c, idm("Sub"), func() []byte { f.VecSub(res, o, b); return rawBytes(res) })
+					rec(c, idm("Mul"), func() []byte { f.VecMul(res, a, o); return rawBytes(res) })
+					rec(c, idm("ScalarMul"), func() []byte { s := sc; f.VecScalarMul(res, o, &s); return rawBytes(res) })
+					rec(c, idm("InnerProduct"), func() []byte { s := f.VecInnerProduct(a, o); return one(&s) })
+					rec(c, idm("InnerProduct-receiver"), func() []byte { s := f.VecInnerProduct(o, b); return one(&s) })
+				}
+			}
 			// accumulator boundary shapes: values cancelling pairwise (sum = 0 mod q with an integer sum that is a
 			// multiple of q), all zero, sum = q-1 and sum = 1
 			if off == 0 && n >= 2 {
